@@ -39,6 +39,7 @@ import (
 
 	"verif/internal/ev"
 	"verif/ref/refhash"
+	"verif/ref/refscript"
 	"verif/ref/refsecp"
 	"verif/ref/refsig"
 	"verif/ref/reftx"
@@ -552,6 +553,7 @@ func familyDigests(r *ev.Run, c *counters, samples *ev.Samples) {
 		go func() {
 			defer wg.Done()
 			seen := map[string]bool{} // outcome classes seen by this worker
+			var scratch []byte        // this evaluation's private copy of the script code
 			for j := range jobs {
 				s := j.s
 				g := toGocoin(s.tx, s.spent)
@@ -572,7 +574,13 @@ func familyDigests(r *ev.Run, c *counters, samples *ev.Samples) {
 							}
 							order++
 							resetCache(g, s.spent)
-							k, what, class := evalLegacy(g, s.tx, cd.b, idx, ht)
+							// the implementation gets a private copy: whatever it does to its argument
+							// cannot reach the reference or a later evaluation
+							scratch = append(scratch[:0], cd.b...)
+							k, what, class := evalLegacy(g, s.tx, scratch, idx, ht)
+							if k == "" && !bytes.Equal(scratch, cd.b) {
+								k, what = "legacy/script-code-argument-modified", fmt.Sprintf("Tx.SignatureHash changed the bytes of its scriptCode argument: %x became %x", short2(cd.b), short2(scratch))
+							}
 							nL++
 							oc := "legacy/" + class + acpName[ht&0x80 != 0] + baseName[ht&0x1f&3] + wideName[ht > 0xff]
 							if !seen[oc] {
@@ -584,7 +592,11 @@ func familyDigests(r *ev.Run, c *counters, samples *ev.Samples) {
 							// BIP143 treats the script code as opaque bytes: same alphabet
 							amount := s.spent[idx].Value
 							resetCache(g, s.spent)
-							k, what = evalBIP143(g, s.tx, cd.b, amount, idx, ht)
+							scratch = append(scratch[:0], cd.b...)
+							k, what = evalBIP143(g, s.tx, scratch, amount, idx, ht)
+							if k == "" && !bytes.Equal(scratch, cd.b) {
+								k, what = "bip143/script-code-argument-modified", fmt.Sprintf("Tx.WitnessSigHash changed the bytes of its scriptCode argument: %x became %x", short2(cd.b), short2(scratch))
+							}
 							nW++
 							oc = "bip143" + acpName[ht&0x80 != 0] + baseName[ht&0x1f&3] + wideName[ht > 0xff] + oorName[idx >= len(s.tx.Out)]
 							if !seen[oc] {
@@ -643,6 +655,25 @@ var (
 	annexName = map[bool]string{false: "", true: "/annex"}
 	baseName  = [4]string{"/base0", "/all", "/none", "/single"}
 )
+
+func hasUnparsableTail(code []byte) bool {
+	pc := 0
+	for pc < len(code) {
+		_, _, next, ok := refhash.GetOp(code, pc)
+		if !ok {
+			return true
+		}
+		pc = next
+	}
+	return false
+}
+
+func short2(b []byte) []byte {
+	if len(b) > 48 {
+		return b[:48]
+	}
+	return b
+}
 
 func min(a, b int) int {
 	if a < b {
@@ -978,6 +1009,246 @@ func familyOrder(r *ev.Run, c *counters, samples *ev.Samples) (seqs int64, serve
 	c.add("iii/order-sequences", n)
 	samples.Add(map[string]interface{}{"family": "iii", "kinds": len(kinds), "max_len": maxLen, "example": []string{kinds[0].name, kinds[9].name, kinds[3].name}})
 	return n, served
+}
+
+// ---------------------------------------------------------------------------
+// family (v): caller-owned inputs are not modified and repeated requests agree.
+//
+// Every digest entry point is called three times with the SAME scriptCode slice
+// object (and the same Tx object). The slice sits inside a larger array with
+// sentinel bytes in front, behind and in its spare capacity. All three answers must
+// equal the reference digest of the ORIGINAL bytes; the slice, the sentinels, the
+// other byte-slice arguments (annex hash, tapleaf hash) and the transaction itself
+// (its serialisation, the spent outputs' scripts) must be unchanged afterwards.
+
+type guarded struct {
+	full, pristine []byte
+	arg            []byte
+}
+
+func guard(b []byte) *guarded {
+	const pre, post = 8, 24
+	g := &guarded{full: make([]byte, pre+len(b)+post)}
+	for i := range g.full {
+		g.full[i] = 0xa5 ^ byte(i*7)
+	}
+	copy(g.full[pre:], b)
+	g.pristine = append([]byte{}, g.full...)
+	g.arg = g.full[pre : pre+len(b)] // capacity reaches into the trailing sentinels
+	return g
+}
+
+// damage: "" / "argument-modified" / "bytes-outside-the-slice-modified"
+func (g *guarded) damage() string {
+	const pre = 8
+	n := len(g.arg)
+	if !bytes.Equal(g.full[pre:pre+n], g.pristine[pre:pre+n]) {
+		return "argument-modified"
+	}
+	if !bytes.Equal(g.full, g.pristine) {
+		return "bytes-outside-the-slice-modified"
+	}
+	return ""
+}
+
+func txFingerprint(g *btc.Tx) []byte {
+	b := g.Serialize()
+	for _, w := range g.SegWit {
+		for _, e := range w {
+			b = append(b, e...)
+		}
+	}
+	for _, o := range g.Spent_outputs {
+		b = append(b, o.Pk_script...)
+		b = append(b, byte(o.Value), byte(o.Value>>8), byte(o.Value>>56))
+	}
+	return b
+}
+
+func bufferCodes() []codeT {
+	var l []codeT
+	for _, c := range legacyCodes() {
+		if !c.big {
+			l = append(l, c)
+		}
+	}
+	sig := append(append([]byte{0x30, 0x44, 0x02, 0x20}, fill(32, 0x11)...), append(append([]byte{0x02, 0x20}, fill(32, 0x22)...), 0x01)...)
+	pk := append([]byte{0x02}, fill(32, 0x33)...)
+	ms := cat([]byte{0x51}, pushData(pk), pushData(pk), []byte{0x52, 0xaf, 0xab}, pushData(pk), []byte{0xac})
+	l = append(l,
+		codeT{name: "embedded-signature/direct", b: cat(pushData(sig), []byte{0x75, 0xab}, pushData(pk), []byte{0xac})},
+		codeT{name: "embedded-signature/pushdata1+separators", b: cat([]byte{0xab, 0x4c, byte(len(sig))}, sig, []byte{0xab, 0x75}, pushData(pk), []byte{0xab, 0xac, 0xab})},
+		codeT{name: "multisig-then-separator", b: ms},
+		codeT{name: "separator-first-then-multisig", b: cat([]byte{0xab}, ms)},
+		codeT{name: "only-separators", b: []byte{0xab, 0xab, 0xab}},
+		codeT{name: "separator-last", b: []byte{0x51, 0x52, 0xab}},
+		codeT{name: "separator-then-unparsable", b: []byte{0x51, 0xab, 0x52, 0x4d, 0x01}},
+	)
+	return l
+}
+
+func familyBuffers(r *ev.Run, c *counters, samples *ev.Samples) {
+	var shs []shape
+	for _, s := range shapes() {
+		switch s.name {
+		case "v1-final/in1/out1", "v2-lock-height/in2/out1", "v2-lock-height/in3/out2", "v0-lock-time/in2/out2", "vff-scripts-cs-boundary/in3/out3":
+			shs = append(shs, s)
+		}
+	}
+	if len(shs) != 5 {
+		ev.HarnessError("buffer shapes missing")
+	}
+	codes := bufferCodes()
+	hts := []uint32{0, 1, 2, 3, 4, 0x81, 0x82, 0x83, 0x100 | 1, 0x80000003, 0xffffffff}
+	var leaf [32]byte
+	for i := range leaf {
+		leaf[i] = byte(0x90 + i)
+	}
+	type job struct {
+		si int
+		s  shape
+	}
+	jobs := make(chan job, len(shs))
+	for i, s := range shs {
+		jobs <- job{i, s}
+	}
+	close(jobs)
+	var wg sync.WaitGroup
+	for w := 0; w < len(shs); w++ {
+		wg.Add(1)
+		go func() {
+			defer wg.Done()
+			for j := range jobs {
+				s := j.s
+				raw := s.tx.Serialize(true)
+				var n int64
+				order := int64(3)<<60 + int64(j.si)<<40
+				for idx := range s.tx.In {
+					for _, cd := range codes {
+						for _, ht := range hts {
+							for entry := 0; entry < 2; entry++ {
+								order++
+								n++
+								g := toGocoin(s.tx, s.spent)
+								fp := txFingerprint(g)
+								gb := guard(cd.b)
+								name := []string{"legacy", "bip143"}[entry]
+								var want [32]byte
+								// the digest of a script code with an unparsable tail is judged by family (i)
+								// (known deviation of Tx.SignatureHash); here only repetition and buffers are
+								tailOnly := entry == 0 && hasUnparsableTail(cd.b)
+								if entry == 0 {
+									want = refhash.Legacy(s.tx, cd.b, idx, ht)
+								} else {
+									want = refhash.BIP143(s.tx, cd.b, s.spent[idx].Value, idx, ht)
+								}
+								rep := caseJ{Family: "buffers-" + name, Tx: raw, Spent: spentToJ(s.spent), Idx: idx, HashType: ht, ScriptCode: cd.b, Amount: s.spent[idx].Value, Label: s.name + " " + cd.name}
+								for call := 0; call < 3; call++ {
+									var got []byte
+									var pan string
+									if entry == 0 {
+										got, pan = callLegacy(g, gb.arg, idx, ht)
+									} else {
+										got, pan = callBIP143(g, gb.arg, s.spent[idx].Value, idx, ht)
+									}
+									if pan != "" {
+										c.report(order, "buffers/"+name+"/panic:"+short(pan), "digest request panicked: "+pan, rep)
+										break
+									}
+									if tailOnly && call == 0 {
+										copy(want[:], got) // later calls must repeat the first answer
+										if len(got) != 32 {
+											want = [32]byte{}
+										}
+									}
+									if !bytes.Equal(got, want[:]) {
+										k := "buffers/" + name + "/repeated-request-differs-from-reference"
+										if tailOnly {
+											k = "buffers/" + name + "/repeated-request-differs-from-first-answer"
+										}
+										if call == 0 {
+											k = "buffers/" + name + "/first-request-differs-from-reference"
+										}
+										c.report(order, k, fmt.Sprintf("call %d of 3 with the same scriptCode slice and Tx object returned %x, reference digest of the original script code %x (%s, hash type 0x%x)", call+1, got, want, cd.name, ht), rep)
+										break
+									}
+									if d := gb.damage(); d != "" {
+										c.report(order, "buffers/"+name+"/script-code-"+d, fmt.Sprintf("after call %d the caller's buffer differs: script code %x now reads %x (%s)", call+1, short2(cd.b), short2(gb.arg), cd.name), rep)
+										break
+									}
+								}
+								if !bytes.Equal(fp, txFingerprint(g)) {
+									c.report(order, "buffers/"+name+"/transaction-modified", "the transaction object's scripts/values changed during a digest request", rep)
+								}
+								c.outcome("buffers/" + name)
+							}
+						}
+					}
+					// taproot: annex hash and tapleaf hash are the caller's byte slices
+					for ht := 0; ht < 256; ht++ {
+						if ht > 4 && ht < 0x80 || ht > 0x84 && ht != 0xff {
+							continue
+						}
+						for _, withExt := range []bool{false, true} {
+							order++
+							n++
+							g := toGocoin(s.tx, s.spent)
+							fp := txFingerprint(g)
+							annex := []byte{0x50, 0x01, 0x02}
+							ga := guard(annexHash(annex))
+							gl := guard(leaf[:])
+							var ext *refhash.TapExt
+							if withExt {
+								ext = &refhash.TapExt{LeafHash: leaf, CodeSepPos: 3}
+							}
+							want, ok := refhash.Taproot(s.tx, s.spent, idx, byte(ht), annex, ext)
+							hx := hexb(annex)
+							rep := caseJ{Family: "taproot", Tx: raw, Spent: spentToJ(s.spent), Idx: idx, HashType: uint32(ht), Annex: &hx, Label: s.name}
+							if ext != nil {
+								rep.Ext = &extJ{LeafHash: leaf[:], CodeSep: 3}
+							}
+							for call := 0; call < 3; call++ {
+								ed := &btc.ScriptExecutionData{M_annex_hash: ga.arg, M_tapleaf_hash: gl.arg, M_codeseparator_pos: 3, M_codeseparator_pos_init: true}
+								var got []byte
+								var pan string
+								func() {
+									defer func() {
+										if r := recover(); r != nil {
+											pan = fmt.Sprint(r)
+										}
+									}()
+									got = g.TaprootSigHash(ed, idx, byte(ht), withExt)
+								}()
+								if pan != "" {
+									c.report(order, "buffers/taproot/panic:"+short(pan), "digest request panicked: "+pan, rep)
+									break
+								}
+								if (ok && !bytes.Equal(got, want[:])) || (!ok && len(got) != 0) {
+									k := "buffers/taproot/repeated-request-differs-from-reference"
+									if call == 0 {
+										k = "buffers/taproot/first-request-differs-from-reference"
+									}
+									c.report(order, k, fmt.Sprintf("call %d of 3 on the same Tx object returned %x, reference %x (defined=%v)", call+1, got, want, ok), rep)
+									break
+								}
+								if d := ga.damage() + gl.damage(); d != "" {
+									c.report(order, "buffers/taproot/execdata-"+d, "annex hash / tapleaf hash bytes of the caller changed", rep)
+									break
+								}
+							}
+							if !bytes.Equal(fp, txFingerprint(g)) {
+								c.report(order, "buffers/taproot/transaction-modified", "the transaction object's scripts/values changed during a digest request", rep)
+							}
+							c.outcome("buffers/taproot")
+						}
+					}
+				}
+				c.add("v/buffers", n)
+			}
+		}()
+	}
+	wg.Wait()
+	samples.Add(map[string]interface{}{"family": "v", "script_codes": len(codes), "shapes": len(shs), "calls_per_member": 3, "hash_types": len(hts)})
 }
 
 // ---------------------------------------------------------------------------
@@ -1482,6 +1753,96 @@ func genScriptPathDepth(k *keys, lf leafT, sh [2]int, idx int, ht byte, ax []byt
 	return
 }
 
+// Legacy CHECKMULTISIG(VERIFY) m-of-n with OP_CODESEPARATOR in consensus-valid
+// places (after the multisig opcode, in an unexecuted branch before it): every
+// key/signature attempt - also the failing ones before the matching key is reached -
+// asks for a digest over the same script code; a valid spend must be accepted.
+var msPriv = func() (l [4][32]byte) {
+	for i := range l {
+		l[i] = sha256.Sum256([]byte(fmt.Sprintf("verif C02 multisig key %d", i)))
+	}
+	return
+}()
+
+func genMultisigSep(n, m int, subset []int, layout int, verifyOp bool, p2sh bool) (l []*vcase) {
+	var pubs [4][]byte
+	for i := range pubs {
+		pubs[i] = refsig.PubkeyFromPriv(msPriv[i][:], true)
+	}
+	var scr []byte
+	if layout == 2 || layout == 3 {
+		scr = append(scr, 0x00, 0x63, 0xab, 0x68) // 0 IF CODESEPARATOR ENDIF
+	}
+	scr = append(scr, byte(0x50+m))
+	for i := 0; i < n; i++ {
+		scr = append(scr, pushData(pubs[i])...)
+	}
+	scr = append(scr, byte(0x50+n))
+	tail := layout == 1 || layout == 3
+	switch {
+	case tail && verifyOp:
+		scr = append(scr, 0xaf, 0xab) // CHECKMULTISIGVERIFY CODESEPARATOR
+	case tail:
+		scr = append(scr, 0xae, 0x69, 0xab) // CHECKMULTISIG VERIFY CODESEPARATOR
+	case verifyOp:
+		scr = append(scr, 0xaf, 0x51) // CHECKMULTISIGVERIFY 1
+	default:
+		scr = append(scr, 0xae)
+	}
+	tailBegin := len(scr)
+	if tail {
+		scr = append(scr, pushData(pubs[3])...)
+		scr = append(scr, 0xac)
+	}
+	name := fmt.Sprintf("%d-of-%d signers %v layout=%s verify-op=%v p2sh=%v", m, n, subset, []string{"plain", "separator-after", "separator-in-unexecuted-branch-before", "separator-before-and-after"}[layout], verifyOp, p2sh)
+	build := func(corrupt bool) (*reftx.Tx, []reftx.Out) {
+		t, sp := baseTx(2, 2)
+		pk := scr
+		if p2sh {
+			h := refhash.Hash160(scr)
+			pk = cat([]byte{0xa9, 0x14}, h[:], []byte{0x87})
+		}
+		sp[1].Script = pk
+		var ss []byte
+		if tail {
+			ss = append(ss, pushData(ecdsaSig(msPriv[3][:], refhash.Legacy(t, scr[tailBegin:], 1, 1), 1))...)
+		}
+		ss = append(ss, 0x00)
+		d := refhash.Legacy(t, scr, 1, 1)
+		for j, ki := range subset {
+			dd := d
+			if corrupt && j == 0 {
+				dd[0] ^= 1
+			}
+			ss = append(ss, pushData(ecdsaSig(msPriv[ki][:], dd, 1))...)
+		}
+		if p2sh {
+			ss = append(ss, pushData(scr)...)
+		}
+		t.In[1].Script = ss
+		return t, sp
+	}
+	lay := []string{"plain", "separator-after", "separator-in-unexecuted-branch", "separator-before-and-after"}[layout]
+	for _, corrupt := range []bool{false, true} {
+		if corrupt && layout != 1 {
+			continue
+		}
+		t, sp := build(corrupt)
+		ref := refscript.Verify(t.In[1].Script, sp[1].Script, nil, refscript.P2SH|refscript.WITNESS|refscript.TAPROOT, &refscript.Input{Tx: t, Idx: 1, Amount: sp[1].Value, Spent: sp})
+		if ref.OK == corrupt {
+			ev.HarnessError("multisig+codeseparator construction: reference says %s for %s (corrupt=%v)", ref.Err, name, corrupt)
+		}
+		if corrupt {
+			l = append(l, &vcase{label: "legacy/multisig-codeseparator/" + name + "/first-signature-over-another-digest", tx: t, spent: sp, idx: 1, flags: fBase, expect: false,
+				key: "verify/legacy/multisig-codeseparator/" + lay + "/wrong-signature-accepted", why: "reference interpreter: " + string(ref.Err)})
+		} else {
+			l = append(l, &vcase{label: "legacy/multisig-codeseparator/" + name, tx: t, spent: sp, idx: 1, flags: fBase, expect: true,
+				key: "verify/legacy/multisig-codeseparator/" + lay + "/valid-spend-refused", why: "every signature signs the original-algorithm digest of the script code with OP_CODESEPARATORs removed; the reference interpreter accepts"})
+		}
+	}
+	return
+}
+
 // verdictGens enumerates family (ii) as lazy builders (signing is slow and is
 // done inside the worker pool).
 func verdictGens(thorough bool) (gens []func() []*vcase) {
@@ -1508,6 +1869,27 @@ func verdictGens(thorough bool) (gens []func() []*vcase) {
 		}
 	}
 	add(func() []*vcase { return genLegacyZeroSingle(k) })
+	for n := 1; n <= 3; n++ {
+		for mask := 1; mask < 1<<uint(n); mask++ {
+			var subset []int
+			for i := 0; i < n; i++ {
+				if mask>>uint(i)&1 == 1 {
+					subset = append(subset, i)
+				}
+			}
+			for layout := 0; layout < 4; layout++ {
+				for _, vop := range []bool{false, true} {
+					for _, p2sh := range []bool{false, true} {
+						if p2sh && layout != 1 {
+							continue
+						}
+						n, subset, layout, vop, p2sh := n, subset, layout, vop, p2sh
+						add(func() []*vcase { return genMultisigSep(n, len(subset), subset, layout, vop, p2sh) })
+					}
+				}
+			}
+		}
+	}
 	for _, total := range []int{0, 75, 76, 77, 80, 130} {
 		for form := range pushForms {
 			total, form := total, form
@@ -1647,11 +2029,42 @@ func replay(file string) {
 	}
 	switch cj.Family {
 	case "legacy":
-		k, what, _ := evalLegacy(toGocoin(t, nil), t, cj.ScriptCode, cj.Idx, cj.HashType)
+		arg := append([]byte{}, cj.ScriptCode...)
+		k, what, _ := evalLegacy(toGocoin(t, nil), t, arg, cj.Idx, cj.HashType)
+		if k == "" && !bytes.Equal(arg, cj.ScriptCode) {
+			k, what = "legacy/script-code-argument-modified", fmt.Sprintf("scriptCode argument %x became %x", []byte(cj.ScriptCode), arg)
+		}
 		fail(k, what)
 	case "bip143":
-		k, what := evalBIP143(toGocoin(t, nil), t, cj.ScriptCode, cj.Amount, cj.Idx, cj.HashType)
+		arg := append([]byte{}, cj.ScriptCode...)
+		k, what := evalBIP143(toGocoin(t, nil), t, arg, cj.Amount, cj.Idx, cj.HashType)
+		if k == "" && !bytes.Equal(arg, cj.ScriptCode) {
+			k, what = "bip143/script-code-argument-modified", fmt.Sprintf("scriptCode argument %x became %x", []byte(cj.ScriptCode), arg)
+		}
 		fail(k, what)
+	case "buffers-legacy", "buffers-bip143":
+		g := toGocoin(t, spent)
+		gb := guard(cj.ScriptCode)
+		bad := false
+		for call := 1; call <= 3; call++ {
+			var got []byte
+			var want [32]byte
+			if cj.Family == "buffers-legacy" {
+				got, _ = callLegacy(g, gb.arg, cj.Idx, cj.HashType)
+				want = refhash.Legacy(t, cj.ScriptCode, cj.Idx, cj.HashType)
+			} else {
+				got, _ = callBIP143(g, gb.arg, cj.Amount, cj.Idx, cj.HashType)
+				want = refhash.BIP143(t, cj.ScriptCode, cj.Amount, cj.Idx, cj.HashType)
+			}
+			fmt.Fprintf(ev.Out, "  call %d: digest %x (reference %x); caller's script code now %x %s\n", call, got, want, gb.arg, gb.damage())
+			if !bytes.Equal(got, want[:]) || gb.damage() != "" {
+				bad = true
+			}
+		}
+		if bad {
+			fail(rec.Key, "repeated requests over the same slice disagree or the caller's buffer was modified")
+		}
+		fail("", "")
 	case "taproot":
 		var ax []byte
 		if cj.Annex != nil {
@@ -1750,6 +2163,7 @@ func main() {
 	familyDigests(r, c, samples)
 	t1 := time.Now()
 	nseq, served := familyOrder(r, c, samples)
+	familyBuffers(r, c, samples)
 	t2 := time.Now()
 	both := familyVerify(r, c, samples)
 	t3 := time.Now()
